@@ -1,5 +1,7 @@
 package autodiff
 
+import "encoding/json"
+
 // C10 layer 2: every operation applied to a view (Slice / T compositions of a
 // parent with symbolic elements) gives the result its definition says, and the
 // parent is unchanged outside the view.
@@ -328,6 +330,17 @@ func verif_C10_ops(kind, viewKind, op, R, C, zmask int) {
 		n1, n2 := v.m.Dims()
 		VerifAssert("Dims:rows", n1 == n)
 		VerifAssert("Dims:cols", n2 == m)
+	case 19: // JSON encoding of the view = JSON encoding of an independent copy
+		data, err := json.Marshal(v.m)
+		VerifAssert("JSON:marshal-no-error", err == nil)
+		if err == nil {
+			b := verifNullMatrix(kind, 0, 0)
+			err = json.Unmarshal(data, b)
+			VerifAssert("JSON:unmarshal-no-error", err == nil)
+			if err == nil {
+				verifSameElems("JSON:decoded-view", b, v.E)
+			}
+		}
 	default:
 		panic("bad op")
 	}
